@@ -30,6 +30,21 @@
 (* error kind -> JsonHandler or the plain-text answer; a marshal failure in  *)
 (* JsonHandler re-enters Error with the marshal error.                       *)
 (*                                                                           *)
+(* What an error IS. The property speaks of system, complex, application and *)
+(* plain errors; a Go error value can be several of these at once, or reach   *)
+(* Error behind another value. An error answer is described by `kind` - the   *)
+(* facets the application gave its error (Facets: the library's concrete      *)
+(* types SystemComplexError / SystemError, a method Code() int, a method      *)
+(* Status() int, in any feasible combination) - and by `via`, how the value   *)
+(* handed to Error relates to it: itself ("direct"), a pointer to the         *)
+(* library's value type, a struct embedding it, or a wrapper of the library's *)
+(* errors package (Wrap / WithMessage / WithStack) whose Cause() it is. What   *)
+(* counts is what the value handed over is to Go's type system (Seen): a      *)
+(* wrapper, a pointer to SystemError and a struct embedding it have neither   *)
+(* the concrete type nor Code()/Status() - they are plain errors - and an     *)
+(* error that HAS its own code is answered with its code, whatever else it    *)
+(* has (complex before system before Code() before Status()).                 *)
+(*                                                                           *)
 (* Abstractions. Error codes are decimal numerals (strings): the table only  *)
 (* needs equality and the zero test, and codes beyond TLC's 32 bits are in   *)
 (* the domain. A value is a *class* [name, k, marshalable, jtype]; the       *)
@@ -47,6 +62,7 @@ CONSTANTS
   Messages,    \* text classes of error messages
   Servers,     \* configured values of the Server header
   Forms,       \* how the application holds its answer: subset of {"handler", "write"}
+  Vias,        \* how the value handed to Error relates to the application's error: subset of AllVias
   MaxServes,   \* requests one handler object answers
   Deviation    \* "none" or the name of a wrong behaviour (non-vacuity runs)
 
@@ -71,22 +87,53 @@ NoCb    == [present |-> FALSE, name |-> ""]
 None    == [kind |-> "none"]
 
 \* ------------------------------------------------ what the application may answer
-Kinds == {"data", "systemError", "complexError", "appError", "plainError", "plainErrorWithStatus"}
+Kinds == {"data", "systemError", "complexError", "appError", "appErrorWithStatus", "plainError", "plainErrorWithStatus"}
+
+\* the facets the application gave its error
+Facets(kind) ==
+  CASE kind = "systemError"          -> {"system"}             \* the library's SystemError (an int)
+    [] kind = "complexError"         -> {"complex"}            \* the library's SystemComplexError {Code, Message}
+    [] kind = "appError"             -> {"code"}               \* any type with Code() int
+    [] kind = "appErrorWithStatus"   -> {"code", "status"}     \* ... that has Status() int as well
+    [] kind = "plainError"           -> {}
+    [] kind = "plainErrorWithStatus" -> {"status"}             \* any other type with Status() int
+    [] OTHER                         -> {}
+\* (SystemError and SystemComplexError are closed types: they cannot get further methods.)
+
+Wrappers == {"wrap", "withMessage", "withStack"}       \* of the library's errors package: Error(), Cause(), Format() only
+AllVias  == {"direct", "pointer", "embedded"} \cup Wrappers
+ViasOf(kind) == IF kind \in {"systemError", "complexError"} THEN AllVias ELSE {"direct"} \cup Wrappers
 
 \* val: the class of the value, ver: which version of the content behind the reference (0: as handed to Data)
-App(kind, code, status, msg, val) == [kind |-> kind, code |-> code, status |-> status, msg |-> msg, val |-> val, ver |-> 0]
+AppVia(kind, via, code, status, msg, val) ==
+  [kind |-> kind, via |-> via, code |-> code, status |-> status, msg |-> msg, val |-> val, ver |-> 0]
+App(kind, code, status, msg, val) == AppVia(kind, "direct", code, status, msg, val)
 
 AppResponses ==
        {App("data", "0", 0, "-", v) : v \in Values}
-  \cup {App("systemError", c, 0, "-", NoValue) : c \in Codes}
-  \cup {App("complexError", c, 0, m, NoValue) : c \in Codes, m \in Messages}
-  \cup {App("appError", c, 0, m, NoValue) : c \in Codes, m \in Messages}
-  \cup {App("plainError", "0", 0, m, NoValue) : m \in Messages}
-  \cup {App("plainErrorWithStatus", "0", s, m, NoValue) : s \in Statuses, m \in Messages}
+  \cup {AppVia("systemError", x, c, 0, "-", NoValue) : c \in Codes, x \in ViasOf("systemError") \cap Vias}
+  \cup {AppVia("complexError", x, c, 0, m, NoValue) : c \in Codes, m \in Messages, x \in ViasOf("complexError") \cap Vias}
+  \cup {AppVia("appError", x, c, 0, m, NoValue) : c \in Codes, m \in Messages, x \in ViasOf("appError") \cap Vias}
+  \cup {AppVia("appErrorWithStatus", x, c, st, m, NoValue) :
+           c \in Codes, st \in Statuses, m \in Messages, x \in ViasOf("appErrorWithStatus") \cap Vias}
+  \cup {AppVia("plainError", x, "0", 0, m, NoValue) : m \in Messages, x \in ViasOf("plainError") \cap Vias}
+  \cup {AppVia("plainErrorWithStatus", x, "0", st, m, NoValue) :
+           st \in Statuses, m \in Messages, x \in ViasOf("plainErrorWithStatus") \cap Vias}
+
+\* what the value handed to Error is to Go's type system
+Seen(a) ==
+  CASE a.via = "direct"   -> Facets(a.kind)
+    [] a.via = "embedded" -> Facets(a.kind) \ {"system", "complex"}    \* promoted methods, but another concrete type
+    [] OTHER              -> {}                                        \* pointer to the value type; wrapper
 
 IsSuccessKind(a) == a.kind = "data" /\ a.val.marshalable
-IsCodedKind(a)   == a.kind \in {"systemError", "complexError", "appError"}
-IsPlainKind(a)   == a.kind \in {"plainError", "plainErrorWithStatus"}
+\* an error that has its own code / one that has not
+IsCodedKind(a)   == a.kind # "data" /\ Seen(a) \cap {"system", "complex", "code"} # {}
+IsPlainKind(a)   == a.kind # "data" /\ ~IsCodedKind(a)
+OwnStatus(a)     == IF "status" \in Seen(a) THEN a.status ELSE 500
+
+\* the class of the text Error() returns (it is the body of the plain answer)
+TextOf(a) == IF a.kind \in {"systemError", "complexError"} \/ a.via \in {"wrap", "withMessage"} THEN "text" ELSE a.msg
 
 \* ------------------------------------------------------------------ body shapes
 Envelope(v, n)   == [t |-> "envelope", code |-> "0", server |-> Pid, data |-> v, ver |-> n, msg |-> "-"]
@@ -100,10 +147,10 @@ CanMarshal(rv) == rv.t # "envelope" \/ rv.data.marshalable
 Cb(r) == IF r.present THEN r.name ELSE ""
 
 \* -------------------------------------------------------------------- handlers
-\* an error as the dispatcher sees it
-Err(kind, code, hasStatus, status, msg) ==
-  [kind |-> kind, code |-> code, hasStatus |-> hasStatus, status |-> status, msg |-> msg]
-MarshalErr == Err("plain", "0", FALSE, 0, "text")
+\* an error as the dispatcher sees it: the facets of the value, its code / status / message, the text of Error()
+Err(facets, code, status, msg, text) ==
+  [facets |-> facets, code |-> code, status |-> status, msg |-> msg, text |-> text]
+MarshalErr == Err({}, "0", 0, "-", "text")
 
 RECURSIVE ErrorHandler(_, _, _)
 \* jsonHandler: marshal first; only a marshalled body is ever written
@@ -117,25 +164,22 @@ JsonHandler(s, r, rv) ==
         wrap   |-> Cb(r),
         body   |-> rv]
 
-\* Error: dispatch on the kind of the error
+\* Error: dispatch on what the error is, in this order
 ErrorHandler(s, r, e) ==
   LET code == IF Deviation = "const-error-code" THEN "100" ELSE e.code IN
-  CASE e.kind = "complex" -> JsonHandler(s, r, CodeData(code, e.msg))
-    [] e.kind = "system"  -> JsonHandler(s, r, CodeOnly(code))
-    [] e.kind = "app"     -> JsonHandler(s, r, CodeData(code, e.msg))
-    [] OTHER              ->
-         [status |-> IF e.hasStatus /\ Deviation # "status-not-applied" THEN e.status ELSE 500,
-          server |-> s, ctype |-> Text, wrap |-> "", body |-> PlainText(e.msg)]
+  IF "complex" \in e.facets THEN JsonHandler(s, r, CodeData(code, e.msg))
+  ELSE IF "system" \in e.facets THEN JsonHandler(s, r, CodeOnly(code))
+  ELSE IF "code" \in e.facets /\ ~(Deviation = "status-shadows-code" /\ "status" \in e.facets)
+       THEN JsonHandler(s, r, CodeData(code, e.msg))
+  ELSE [status |-> IF "status" \in e.facets /\ Deviation # "status-not-applied" THEN e.status ELSE 500,
+        server |-> s, ctype |-> Text, wrap |-> "", body |-> PlainText(e.text)]
 
 DataHandler(s, r, v, n) == JsonHandler(s, r, Envelope(v, n))
 
 Handle(s, r, a) ==
-  CASE a.kind = "data"                 -> DataHandler(s, r, a.val, a.ver)
-    [] a.kind = "systemError"          -> ErrorHandler(s, r, Err("system", a.code, FALSE, 0, "-"))
-    [] a.kind = "complexError"         -> ErrorHandler(s, r, Err("complex", a.code, FALSE, 0, a.msg))
-    [] a.kind = "appError"             -> ErrorHandler(s, r, Err("app", a.code, FALSE, 0, a.msg))
-    [] a.kind = "plainError"           -> ErrorHandler(s, r, Err("plain", "0", FALSE, 0, a.msg))
-    [] a.kind = "plainErrorWithStatus" -> ErrorHandler(s, r, Err("plain", "0", TRUE, a.status, a.msg))
+  IF a.kind = "data" THEN DataHandler(s, r, a.val, a.ver)
+  ELSE LET f == IF Deviation = "cause-dispatched" /\ a.via \in Wrappers THEN Facets(a.kind) ELSE Seen(a)
+       IN  ErrorHandler(s, r, Err(f, a.code, a.status, a.msg, TextOf(a)))
 
 \* ---------------------------------------------------------------- client half
 \* What the bytes of the body are to a JSON reader: "notjson" | "object"; and whether the
@@ -224,8 +268,7 @@ EnvelopeWellFormedOf(s, r, a, rs) ==
 \* errors answer with their own code (in the JSON body) or their own status (default 500)
 ErrorOwnCodeOf(a, rs) ==
      /\ IsCodedKind(a) => (rs.body.t \in {"code", "codedata"} /\ rs.body.code = a.code /\ rs.body.code # "0")
-     /\ a.kind = "plainError" => rs.status = 500
-     /\ a.kind = "plainErrorWithStatus" => rs.status = a.status
+     /\ IsPlainKind(a) => rs.status = OwnStatus(a)
 
 \* a value that cannot be marshalled yields an error response, never 200 / a partial body
 UnmarshalableIsErrorOf(a, rs) ==
